@@ -28,9 +28,12 @@ From Cffi Require Export C37.Steps C37.Gen.
 Open Scope Z_scope.
 
 (* the decisive facts of the close paths, read from the REGENERATED source text (C37/Gen.v) *)
-Definition inline_sets_null : bool := has CallCloseLib inline_close && has SetHandleNull backend_close_lib.
+(* au: the lib owns its handle (dl_auto_close / l_auto_close; false for ffi.dlopen(<void * handle>)).  The handle is
+   reset only if the block containing the reset is entered: its guard must not also require the auto-close flag *)
+Definition inline_sets_null (au : bool) : bool :=
+  has CallCloseLib inline_close && has SetHandleNull backend_close_lib && (negb backend_close_guard_auto || au).
 Definition inline_clears : bool := has ClearDict inline_close.
-Definition ool_sets_null : bool := has SetHandleNull ool_close.
+Definition ool_sets_null (au : bool) : bool := has SetHandleNull ool_close && (negb ool_close_guard_auto || au).
 Definition ool_clears : bool := has ClearDict ool_close.
 Inductive mode := Inline | Ool.
 (* does an access path test "closed" BEFORE it calls dlsym()?  If it does not, dlsym(NULL, name) is
@@ -62,7 +65,8 @@ Definition name_eqb (a b : name) : bool :=
   end.
 Definition is_const (n : name) : bool := match n with NConst _ => true | _ => false end.
 
-Record lib := { lmode : mode; lopen : bool;
+Record lib := { lmode : mode; lauto : bool;     (* lauto: owns the dlopen handle (opened from a file name) *)
+                lopen : bool;
                 ldict : list name; lprops : list nat; laddr : list nat }.
 Record state := { mem : list Z; libs : list lib }.
 Definition usable (L : lib) : bool := lopen L || unchecked (lmode L).
@@ -98,11 +102,11 @@ Fixpoint upd {A} (l : list A) (i : nat) (x : A) : list A :=
 Definition closed_exn (m : mode) : exn := match m with Inline => ValueError | Ool => FFIError end.
 
 Definition with_dict (L : lib) (d : list name) : lib :=
-  {| lmode := lmode L; lopen := lopen L; ldict := d; lprops := lprops L; laddr := laddr L |}.
+  {| lmode := lmode L; lauto := lauto L; lopen := lopen L; ldict := d; lprops := lprops L; laddr := laddr L |}.
 Definition with_props (L : lib) (p : list nat) : lib :=
-  {| lmode := lmode L; lopen := lopen L; ldict := ldict L; lprops := p; laddr := laddr L |}.
+  {| lmode := lmode L; lauto := lauto L; lopen := lopen L; ldict := ldict L; lprops := p; laddr := laddr L |}.
 Definition with_addr (L : lib) (a : list nat) : lib :=
-  {| lmode := lmode L; lopen := lopen L; ldict := ldict L; lprops := lprops L; laddr := a |}.
+  {| lmode := lmode L; lauto := lauto L; lopen := lopen L; ldict := ldict L; lprops := lprops L; laddr := a |}.
 
 (* ---- what the C library itself does (no notion of close) *)
 Definition call_fn (d : desc) (m : list Z) (f : nat) (z : Z) : list Z * out :=
@@ -206,11 +210,11 @@ Definition step_lib (d : desc) (m : list Z) (L : lib) (o : op) : list Z * lib * 
          In-line clears the dict again on every close (api.py:934), out-of-line only when the
          handle was not NULL (cdlopen.c:66) *)
       match lmode L with
-      | Inline => (m, {| lmode := Inline; lopen := if inline_sets_null then false else lopen L;
+      | Inline => (m, {| lmode := Inline; lauto := lauto L; lopen := if inline_sets_null (lauto L) then false else lopen L;
                          ldict := if inline_clears then [] else ldict L;
                          lprops := lprops L; laddr := laddr L |}, ONone)
       | Ool => if lopen L
-               then (m, {| lmode := Ool; lopen := if ool_sets_null then false else true;
+               then (m, {| lmode := Ool; lauto := lauto L; lopen := if ool_sets_null (lauto L) then false else true;
                            ldict := if ool_clears then [] else ldict L;
                            lprops := lprops L; laddr := laddr L |}, ONone)
                else (m, L, ONone)
@@ -231,9 +235,9 @@ Fixpoint run (d : desc) (s : state) (h : list op) : state * list out :=
                let '(s2, rs) := run d s1 h' in (s2, r :: rs)
   end.
 
-Definition new_lib (m : mode) : lib :=
-  {| lmode := m; lopen := true; ldict := []; lprops := []; laddr := [] |}.
-Definition init (m0 : list Z) (modes : list mode) : state :=
+Definition new_lib (m : mode * bool) : lib :=
+  {| lmode := fst m; lauto := snd m; lopen := true; ldict := []; lprops := []; laddr := [] |}.
+Definition init (m0 : list Z) (modes : list (mode * bool)) : state :=
   {| mem := m0; libs := map new_lib modes |}.
 
 (* ======== the cache-free specification the property talks about =========================
@@ -299,8 +303,8 @@ Fixpoint spec_run (d : desc) (s : astate) (h : list op) : astate * list out :=
                let '(s2, rs) := spec_run d s1 h' in (s2, r :: rs)
   end.
 
-Definition ainit (m0 : list Z) (modes : list mode) : astate :=
-  {| amem := m0; alibs := map (fun m => {| amode := m; aopen := true; ataken := [] |}) modes |}.
+Definition ainit (m0 : list Z) (modes : list (mode * bool)) : astate :=
+  {| amem := m0; alibs := map (fun m => {| amode := fst m; aopen := true; ataken := [] |}) modes |}.
 
 (* ---- for the correspondence check *)
 Definition exn_eqb (a b : exn) : bool :=
@@ -319,6 +323,6 @@ Definition out_eqb (a b : out) : bool :=
   end.
 (* input of a correspondence case: library description, initial memory, modes, history;
    result: outputs followed by the final values of all variables *)
-Definition run_case (c : desc * list Z * list mode * list op) : list out * list Z :=
+Definition run_case (c : desc * list Z * list (mode * bool) * list op) : list out * list Z :=
   let '(d, m0, modes, h) := c in
   let '(s, rs) := run d (init m0 modes) h in (rs, mem s).
